@@ -28,16 +28,22 @@ from vf.runner import Violation
 SENT = np.float64(-7.25e77)
 SENT_BITS = np.array([SENT]).view(np.uint64)[0]
 
-# ---- tolerances (HARNESS rule 2).  got/want compared as |got-want| <= tol where tol is supplied by the oracle as
-# k * scale with scale = sum of magnitudes of the terms that enter the law.  k per class:
-#   copy   : bit-exact (the documentation says "copied from")
-#   pos    : 1e-13  (a handful of 3x3 products on O(1) numbers; worst observed ratio ~1e-15)
-#   vel    : 1e-12  (Jacobian products + transport terms; worst observed ~2e-15)
-#   fd     : 2e-6   (accelerations: central difference of J(q)qvel with h=1e-5: truncation h^2 |d3x/dt3| ~ 1e-10*|w|^3,
-#                    round-off eps*|v|/h ~ 1e-11; force/torque multiply this by masses/lever arms which are in `scale`;
-#                    worst observed ratio ~2e-8)
-#   geom   : 1e-5   (narrow-phase convex tolerance opt.ccd_tolerance=1e-6)
-# These constants live in vf/oracle/sens.py next to each law; the observed worst ratios are written to the evidence.
+# ---- tolerances (HARNESS rule 2).  got/want are compared as |got-want| <= tol where tol is supplied by the oracle
+# (vf/oracle/sens.py, next to each law) as k * scale, scale = 1 + sum of the magnitudes of the terms that enter the law.
+# k per class, calibrated on the unchanged tree (quick seeds 1-8 + two thorough runs of 12000 models) at >= ~100x the
+# worst observed error (worst observed error / tolerance is written to the evidence on every run):
+#   copy   : bit-exact ("copied from mjData.x" in the documentation; ballquat 8 eps)
+#   pos    : 1e-13  frame positions/axes/quaternions, magnetometer, subtreecom, camprojection (worst observed 2e-16)
+#   vel    : 1e-12  Jacobian products + rigid transport, momenta (worst observed 2.5e-15)
+#   energy : 1e-12  (worst observed 3.4e-15)
+#   limit  : 1e-13 / 1e-12 (worst observed 2e-16)
+#   fd     : 2e-6   accelerations, force, torque: d/dt[J(q) qvel] by a central difference along the flow with h = 1e-5:
+#                   truncation ~ h^2 |d3x/dt3| ~ 1e-10 |w|^3, round-off ~ eps |v| / h ~ 2e-11 |v|; states are restricted to
+#                   |qvel| <= 50, |qacc| <= 1e6 ('violent-state' discards).  Worst observed 3e-8.
+#   geom   : 1e-5   collision sensors (narrow-phase convex tolerance opt.ccd_tolerance = 1e-6; worst observed 3e-13 on
+#                   closed-form pairs)
+#   ray    : 1e-9   rangefinder (worst observed 6e-16)
+# Mutants (mutants/C28) are all caught with these constants.
 
 
 # Known findings (known_findings.json).  Policy: the oracle stays doc-faithful; the exact input class of an OPEN finding
@@ -723,8 +729,14 @@ def main(ck):
       'force/torque: wrench exerted on the child by the parent, torque about the site origin; external Cartesian loads '
       '= gravity, xfrc_applied, contacts; active connect/weld equalities and world-body sites -> isolation only; '
       'spatial tendons are not external loads (documented known bug of cfrc_int, issue 832)',
-      'touch: reading bracketed by [sum over contacts inside the zone, sum over contacts whose normal line meets the zone]',
-      'sensors with nsample>0 (history/delay/interval): slice isolation only',
+      'touch: sum of the normal forces of the contacts that involve the site body and lie inside the zone or whose '
+      'normal ray, cast from the contact point out of the sensor body, meets the zone (contacts between two geoms of '
+      'the sensor body itself: bracketed with the full normal line)',
+      'sensors with nsample>0 (history/delay/interval): slice isolation in the generated stream; the delay / interval '
+      'semantics (reading = undelayed reading k steps earlier / at the last tick, bit-exact) are checked by delay_probe',
+      'tendonactuatorfrc = sum of the scalar actuator_force of the actuators whose transmission is that tendon (gear '
+      'not applied: the documentation says "total force contributed by all actuators to a single tendon")',
+      'distance sensor: value clipped to [-cutoff, cutoff] when cutoff > 0 (generic cutoff rule + collision rule)',
       'quaternion readings are compared as rotations (q and -q are the same orientation)',
   ]
   maxb = 5 if ck.quick else 8
@@ -770,5 +782,9 @@ reference type, random cutoff, random order) are evaluated at generated states w
 reading is compared with the documented quantity recomputed in numpy, cutoff clamping by datatype is checked, and the
 slice discipline is checked by a sentinel fill, a guarded recomputation and by removing each sensor in turn.'''
 LEVEL_NOTE = '''Trusted: frame poses, point Jacobians, contact list/forces, efc rows, tendon/actuator lengths and the
-mass matrix of the engine (covered by C06/C07/C11/C13/C27). Sensors with a history buffer, user sensors, tactile and
-plugin sensors are covered by slice isolation only (tactile/plugin not generated).'''
+mass matrix of the engine (covered by C06/C07/C11/C13/C27). Sensors with a history buffer are covered by slice isolation
+in the generated stream and by a dedicated delay/interval law on a small arm model; user sensors by isolation only;
+orthographic-camera rangefinders, force/torque with active connect/weld, fragile (boundary) cases: isolation only;
+tactile and plugin sensors are not generated. Six deviations from the documentation were found and reported (four
+repaired in /repo, two open: C28:rk4-delay, C28:ccd-concentric - their input classes are excluded from the generated
+stream by construction and raised by dedicated probes).'''
